@@ -390,6 +390,15 @@ class T:
                 s2.add(solve.abstract_ufs(a, cache, names))
             if s2.check() == z3.sat:
                 res = {"status": "failed", "backend": "z3 (UF terms as constants)", "seconds": res.get("seconds")}
+        if res["status"] == "unknown":
+            # quantified preconditions (set-level tasks): a model of the finite expansion shows satisfiability
+            from . import finite
+            nvar = None
+            for a in self.pre:
+                pass
+            found = finite.search(list(self.pre) + list(self.ctx.facts), z3.BoolVal(False), None, sizes=(2, 3, 1))
+            if found is not None:
+                res = {"status": "failed", "backend": "z3 (finite expansion, universe size %d)" % found[1], "seconds": res.get("seconds")}
         ok = res["status"] == "failed"
         rr = {"status": "proved" if ok else ("unknown" if res["status"] == "unknown" else "failed"),
               "backend": res.get("backend"), "seconds": res.get("seconds"),
